@@ -171,6 +171,15 @@ def static_state(prog: Program, rep, mods) -> int:
                     n_bind += 1
                     ok = _is_constant_expr(prog, mod, v) or (all(isinstance(x, (ast.Name, ast.BinOp, ast.BitOr, ast.BitAnd, ast.Load)) for x in ast.walk(v))
                                                              and all(x.id in local_consts for x in ast.walk(v) if isinstance(x, ast.Name)))
+                    if not ok and is_dc and isinstance(st, ast.AnnAssign) and isinstance(v, ast.Call) and (dotted(v.func) or "") in ("field", "dataclasses.field") and not v.args:
+                        # a dataclass field: `default_factory` builds a fresh value per instance, `default` must be a constant
+                        def fresh_factory(f_):
+                            if isinstance(f_, ast.Name) and f_.id in ("list", "dict", "set"):
+                                return True
+                            return isinstance(f_, ast.Lambda) and not f_.args.args and isinstance(f_.body, (ast.List, ast.Dict, ast.Set, ast.Constant, ast.Tuple)) \
+                                and all(isinstance(x_, (ast.Constant, ast.List, ast.Dict, ast.Set, ast.Tuple, ast.Load)) for x_ in ast.walk(f_.body))
+                        ok = all((k_.arg == "default_factory" and fresh_factory(k_.value)) or (k_.arg == "default" and _is_constant_expr(prog, mod, k_.value))
+                                 or (k_.arg in ("init", "repr", "compare", "hash", "kw_only") and isinstance(k_.value, ast.Constant)) for k_ in v.keywords)
                     if ok and isinstance(t, ast.Name):
                         local_consts.add(t.id)
                     rep.check(ok, "class-level-state", ci.qualname, U(st).splitlines()[0][:100],
